@@ -26,6 +26,10 @@ impl Queue {
     pub(crate) fn send(&self, sig: &Signal) {
         let sender = self.sender.clone();
         let sig = sig.clone();
+        #[cfg(feature = "verif")]
+        if crate::verif::gate_park(&sender, &sig) {
+            return;
+        }
         Handle::current().spawn(async move { sender.send(sig).await });
     }
 
